@@ -237,10 +237,22 @@ def go_pairs():
                 yield base, (a + go + b).join(sts)
 
 
+def scale_pairs(ctx):
+    rng = ctx.rng
+    modes = ['double', 'newline', 'crlf', 'lower'] if ctx.quick() else [m for m in MODES if m != 'canon']
+    n = 0
+    for a in gen.scale_texts(rng):
+        for m in (rng.sample(modes, 2) if ctx.quick() else modes):
+            compare(ctx, a, respell_mode(a, m))
+            n += 1
+    ctx.count('scale respellings', n)
+
+
 def run(ctx):
     rng = ctx.rng
     g = grammar.Gen(rng)
     texts = []
+    scale_pairs(ctx)
     # systematic part: scripts with the extra constructs, each compared with its canonical spelling under every deterministic mode
     g2 = grammar.Gen(rng, feat=C11_FEAT)
     nsys = 0
